@@ -77,7 +77,16 @@ def run_spec(spec, repo_root=None, timeout=1500):
         cmd = ["cargo", "test", "--offline", "-p", spec["package"]] + spec["target"] + ["--", "--nocapture", "--test-threads", "1", spec["filter"]]
         out["cmd"] = "cd <scratch copy of the tree with `mod %s` (file %s) appended to %s/%s> && %s" % (
             spec["module"], spec["rs"], spec["crate_dir"], spec["inject_into"], " ".join(cmd))
-        pr = subprocess.run(cmd, cwd=os.path.join(sc, "repo"), env=env, capture_output=True, text=True, timeout=timeout)
+        # one build+run at a time per crate: the test binary's name does not depend on the scratch path, so two witnesses of
+        # the same crate sharing the target dir would overwrite each other's binary
+        os.makedirs(env["CARGO_TARGET_DIR"], exist_ok=True)
+        clock = open(os.path.join(env["CARGO_TARGET_DIR"], "vxw.%s.lock" % spec["package"]), "w")
+        fcntl.flock(clock, fcntl.LOCK_EX)
+        try:
+            pr = subprocess.run(cmd, cwd=os.path.join(sc, "repo"), env=env, capture_output=True, text=True, timeout=timeout)
+        finally:
+            fcntl.flock(clock, fcntl.LOCK_UN)
+            clock.close()
         txt = pr.stdout + "\n" + pr.stderr
         for line in txt.splitlines():
             m = re.search(r"VXW-FAIL (\{.*\})", line)
